@@ -80,7 +80,7 @@ fn managers() -> Vec<(String, TableMgr)> {
 
 pub fn run(tier: Tier) -> i32 {
     let rep = Report::new("C13", tier);
-    rep.set_rule("A: Extension::new for all 65536 ids x data lengths 0..=10. B: all chains of length 1..=3 (thorough 1..=4) over a 10-letter alphabet (one optional id per H-LEN class, three known non-final mandatory ids with 0/1/8 data bytes, two final mandatory ids in last position) x protocol types {matching, another id < 0x100, 0x0100, 0x05FF, 0x0600, 0x0800} x labels {6B, 3B, broadcast, substituted re-use} x PDU lengths {0,1,7} x EVERY buffer size 0..=complete size+3 (plus 4097, 70000), and for chains <= 2 PDU lengths {4060,4078,4085,4088,4090,4093,4096} x buffers around the complete size, 4090..=4110, 13, 40, 8192, fragmented results completed with encap_frag; receivers knowing all / all-but-one (each in turn) / none of the mandatory ids, storage = PDU length and +8. Oracle: Ok => reference parser recovers the same chain/ptype/label/payload and reported length = wire length; knowing receiver delivers the same; receiver missing a used mandatory id rejects consuming exactly the packet, also when more bytes follow. distinct = (call, outcome, chain length / manager class)");
+    rep.set_rule("A: Extension::new for all 65536 ids x data lengths 0..=10. B: all chains of length 1..=3 (thorough 1..=4) over a 10-letter alphabet (one optional id per H-LEN class, three known non-final mandatory ids with 0/1/8 data bytes, two final mandatory ids in last position) x protocol types {matching, another id < 0x100, 0x0100, 0x05FF, 0x0600, 0x0800} x labels {6B, 3B, broadcast, substituted re-use, 3B / 6B at / below a consecutive-re-use limit} x PDU lengths {0,1,7} x EVERY buffer size 0..=complete size+3 (plus 4097, 70000), and for chains <= 2 PDU lengths {4060,4078,4085,4088,4090,4093,4096} x buffers around the complete size, 4090..=4110, 13, 40, 8192, fragmented results completed with encap_frag; receivers knowing all / all-but-one (each in turn) / none of the mandatory ids, storage = PDU length and +8. Oracle: Ok => reference parser recovers the same chain/ptype/label/payload and reported length = wire length; knowing receiver delivers the same; receiver missing a used mandatory id rejects consuming exactly the packet, also when more bytes follow. distinct = (call, outcome, chain length / manager class)");
     part_constructor(&rep);
     let maxlen = if tier.thorough() { 4 } else { 3 };
     let mut ch = chains(maxlen);
@@ -143,7 +143,7 @@ pub fn run(tier: Tier) -> i32 {
             let big_ps: &[usize] = if c.len() <= 2 { &[4060, 4078, 4085, 4088, 4090, 4093, 4096] } else { &[] };
             for &p in [0usize, 1, 7].iter().chain(big_ps.iter()) {
                 let pd = pdu(p, 0);
-                for (li, &(l, prior)) in [(L6A, Prior::Fresh), (L3A, Prior::Fresh), (Lbl::Bcast, Prior::Fresh), (L6A, Prior::Same)].iter().enumerate() {
+                for (li, &(l, prior)) in [(L6A, Prior::Fresh), (L3A, Prior::Fresh), (Lbl::Bcast, Prior::Fresh), (L6A, Prior::Same), (L3A, Prior::SameAtMax), (L6A, Prior::SameBelowMax)].iter().enumerate() {
                     let ext_wire: usize = c.iter().map(|e| 2 + e.1.len()).sum();
                     let complete_size = 2 + 2 + l.wire_len() + ext_wire + p;
                     let mut bl: Vec<usize> = if p <= 7 { (0..=complete_size + 3).collect() } else { (complete_size - 5..=complete_size + 3).chain(4090..=4110).chain([13, 40, 8192]).collect() };
@@ -178,7 +178,7 @@ pub fn run(tier: Tier) -> i32 {
                         // (2) the real receiver knowing all ids, completing a fragmented PDU with encap_frag
                         for storage in [p, p + 8] {
                             let mut rx = RxS::new(2, storage.max(1), &[storage.max(1), storage.max(1)]).build(DefaultCrc {}, all_mgr.clone());
-                            if prior == Prior::Same {
+                            if matches!(prior, Prior::Same | Prior::SameAtMax | Prior::SameBelowMax) {
                                 // lock-step: the receiver saw the same preceding packet
                                 rx.verif_set_last_label(Some(l.to_label()));
                             }
@@ -239,7 +239,7 @@ pub fn run(tier: Tier) -> i32 {
                             for tail in [&[][..], &[0x00, 0x00][..], &[0xC0, 0x05, 0x08, 0x00, 0x31, 0x32, 0x33][..]] {
                                 let st = p.max(16);
                                 let mut rx = RxS::new(2, st, &[st, st]).build(DefaultCrc {}, m.clone());
-                                rx.verif_set_last_label(if prior == Prior::Same { Some(l.to_label()) } else { None });
+                                rx.verif_set_last_label(if matches!(prior, Prior::Same | Prior::SameAtMax | Prior::SameBelowMax) { Some(l.to_label()) } else { None });
                                 let mut input = buf[..n].to_vec();
                                 input.extend_from_slice(tail);
                                 let d = do_decap(&mut rx, &input);
